@@ -119,7 +119,7 @@ def fp_jobs(tier):
 def type_jobs(tier):
     jobs = []
     n, d, fc, sc = 10, 3, 1000, 2
-    start = rf.first_sample_of_ms(1394368230000 // 2000 * 2000, n, d)
+    start = rf.first_sample_of_ms(1394333998000 // 2000 * 2000, n, d)
     nsubs = (1, 2) if tier == "quick" else (1, 2, 3)
     for over, mname in U.type_cfgs(nsubs=nsubs):
         cfg = rf.Cfg(n=n, d=d, fc=fc, sc=sc, start=start, **over)
@@ -129,6 +129,72 @@ def type_jobs(tier):
         jobs.append(("hist", dict(cfg), hists, "type %s%d%s %s nsub=%d %s" % (
             over["kind"], over["size"], over["order"], "cplx" if over["cplx"] else "real", over["nsub"], mname)))
     return jobs
+
+
+def twochan_jobs(tier):
+    """two channels of one recording written alternately by one process whose working directory is the
+    first channel's directory (names of existing directories must not leak into the other channel's layout)"""
+    jobs = []
+    for (n, d, fc, sc) in U.LAYOUT_RATES[:2] + U.LAYOUT_RATES[4:5]:
+        starts = U.start_positions(n, d, fc, sc, U.EPOCHS[1:2])
+        for mode in ("gapped", "cont"):
+            for (k0, label) in starts[::3]:
+                for L in (2, 4, 7):
+                    jobs.append(("twochan", dict(_cfg(n, d, fc, sc, k0, mode)), L, "two channels %d/%d %s %s L=%d" % (n, d, mode, label, L)))
+    return jobs
+
+
+def run_twochan(cfgd, L, seed, part, label):
+    import digital_rf as drf
+
+    top = core.new_scratch()
+    cwd = os.getcwd()
+    try:
+        cfgs = {name: rf.Cfg(**dict(cfgd, ch=name)) for name in ("chA", "chB")}
+        models, writers = {}, {}
+        for name, cfg in cfgs.items():
+            os.makedirs(os.path.join(top, name))
+            models[name] = rf.Model()
+            models[name].open_session(cfg)
+        os.chdir(os.path.join(top, "chA"))
+        for name, cfg in cfgs.items():
+            writers[name] = rf.open_writer(drf, os.path.join(top, name), cfg)
+        case = {"universe": "twochan", "cfg": cfgd, "L": L, "seed": seed}
+        for rnd in range(5):
+            for name in ("chA", "chB"):
+                cfg, m = cfgs[name], models[name]
+                g, b, length = [m.cursor + (rnd % 2)], [0], L
+                arr = rf.values_for(cfg, seed, g, b, length)
+                try:
+                    writers[name].rf_write(arr, g[0])
+                except Exception as e:  # noqa: BLE001
+                    part["violations"].append(core.Violation({"class": "valid_write_rejected", "universe": "twochan"}, case,
+                                                             "round %d channel %s: %r" % (rnd, name, e)))
+                    return
+                m.apply_write(g, b, rf.row_bytes(arr))
+                part["transitions"] += 1
+        for name in cfgs:
+            writers[name].close()
+            models[name].close_session()
+        os.chdir(cwd)
+        reader = drf.DigitalRFReader(top)
+        for name, cfg in cfgs.items():
+            run = rfrun.Run()
+            run.model, run.cfg, run.top, run.chdir = models[name], cfg, top, os.path.join(top, name)
+            errs, nr = rfrun.oracle_roundtrip(run, reader, "linear", edge_limit=24)
+            errs += rfrun.oracle_layout(run)
+            for key, detail in errs:
+                part["violations"].append(core.Violation(dict(key, universe="twochan", channel=name), case, detail))
+        reader.close()
+        part["evaluations"] += 1
+        part["traces"] += 1
+        st = core.canon(("twochan", cfgd["n"], cfgd["d"], cfgd["cont"], cfgd["start"], L))
+        part["states"].add(st)
+        part["nontrivial"].add(st)
+        part["outcomes"]["twochan"] += 1
+    finally:
+        os.chdir(cwd)
+        core.rm(top)
 
 
 def capi_jobs(tier):
@@ -208,10 +274,13 @@ def run_job(job):
     part = core.new_part()
     kind = job[0]
     cfg = rf.Cfg(**job[1])
+    if kind == "twochan":
+        run_twochan(job[1], job[2], seed, part, job[3])
+        return part
     if kind in ("hist", "fp"):
         hists = job[2] if kind == "hist" else [(job[2], "fp")]
         for ops, ranges in hists:
-            top = core.new_scratch()
+            top = core.new_scratch(long_path=(part["evaluations"] % 2 == 1))
             try:
                 run = rfrun.execute(cfg, ops, seed, top)
                 part["evaluations"] += 1
@@ -373,7 +442,7 @@ def main(tier):
                      "sample values are a fixed function of (VERIF_SEED, index, subchannel, component)"],
     )
     stage.activate()
-    jobs = layout_jobs(tier) + fp_jobs(tier) + type_jobs(tier) + capi_jobs(tier)
+    jobs = layout_jobs(tier) + fp_jobs(tier) + type_jobs(tier) + capi_jobs(tier) + twochan_jobs(tier)
     rot = core.seed() % max(1, len(jobs))
     jobs = jobs[rot:] + jobs[:rot]
     chk.extra["jobs"] = len(jobs)
